@@ -80,6 +80,20 @@ pub const MESSAGES: &[&str] = &[
     "message = \"nested\"",
 ];
 
+/// later additions (kept apart so that indices into MESSAGES stay what they were): words a
+/// template-filling renderer could mistake for its own placeholders, and control characters
+/// that need no escape of their own in a JavaScript string literal
+pub const MESSAGES_LATE: &[&str] = &[
+    "use the {min}/{max} placeholders",
+    "{opts} {message} {value}",
+    "between {{min}} and {{max}}",
+    "$1 \\1 %s {}",
+    "esc \u{1b}[1m bold",
+    "form\u{c}feed and bell \u{7}",
+    "nel \u{85} and nbsp \u{a0}",
+    "del \u{7f} end",
+];
+
 fn num_class(s: &str) -> &'static str {
     let c = s.replace('_', "");
     if c.starts_with('-') {
@@ -534,6 +548,13 @@ pub fn grid() -> Vec<Vec<VField>> {
             out.push(vec![noisy("note", "String", vec![]), plain("other")]);
             out.push(vec![noisy("name", "String", vec![V::Length { min: Some("2".into()), max: Some("40".into()), message: Some("2 to 40".into()) }]), noisy("age", "i32", vec![V::Range { min: Some("-5".into()), max: None, message: None }])]);
         }
+    }
+    // later additions go last, so that the indices of the cases above stay what they were
+    for m in MESSAGES_LATE {
+        out.push(vec![VField { name: "name".into(), ty: "String".into(), validators: vec![V::Length { min: Some("1".into()), max: Some("9".into()), message: Some(m.to_string()) }], split: false, noise: vec![], noise_at: String::new() }, plain("other")]);
+        out.push(vec![VField { name: "age".into(), ty: "i32".into(), validators: vec![V::Range { min: Some("1".into()), max: Some("10".into()), message: Some(m.to_string()) }], split: false, noise: vec![], noise_at: String::new() }, plain("other")]);
+        out.push(vec![VField { name: "level".into(), ty: "Option<u8>".into(), validators: vec![V::Range { min: None, max: Some("7".into()), message: Some(m.to_string()) }], split: false, noise: vec![], noise_at: String::new() }, plain("other")]);
+        out.push(vec![VField { name: "mail".into(), ty: "String".into(), validators: vec![V::Email { message: Some(m.to_string()) }], split: false, noise: vec![], noise_at: String::new() }, plain("other")]);
     }
     out
 }
